@@ -31,6 +31,23 @@ var engineAssumptions = []string{
 
 var checks = []Check{
 	{
+		ID: "C13", Title: "transparent compression never changes what clients read back", Level: "model_checking",
+		LevelText: "bounded-exhaustive enumeration through the real filter chain (4 thresholds x 8 write commands x every {0,x}-string up to length 10 plus patterned values around every threshold x 1-3 filter passes) with the snappy library itself as decompression oracle, and every history up to depth 4/5 of enable/disable, writes, reads, MOVED and ASK redirection on the real proxy stack against a reference map",
+		Technique: "bounded-exhaustive input enumeration + exhaustive history enumeration on the real proxy stack under a controlled scheduler",
+		Assumptions: append([]string{"github.com/golang/snappy called directly as independent decompression oracle", "mini Redis Cluster stores values byte for byte"}, engineAssumptions...),
+		Jobs: []Job{
+			{Pkg: "proc/redis", Scenarios: []string{"C13/filter"}, Shards: 8, QuickS: 90, ThoroughS: 300},
+			{Pkg: "proc/redis", Scenarios: []string{"C13/histories"}, Shards: 16, QuickS: 90, ThoroughS: 600},
+		},
+	},
+	{
+		ID: "C18", Title: "SCAN through the proxy visits every node once and terminates", Level: "model_checking",
+		LevelText: "every combination of scripted per-node cursor chains (17 shapes per node, 1-3 nodes, cursors up to 2^48-1) iterated from cursor 0 through the real proxy; MATCH/COUNT/TYPE pass-through; every client-supplied cursor class; lossless cursor composition for all power-of-two boundaries",
+		Technique: "exhaustive enumeration of node cursor histories on the real proxy stack under a controlled scheduler",
+		Assumptions: append([]string{"scripted SCAN answers of the mini cluster (well-formed replies; malformed ones belong to C11)"}, engineAssumptions...),
+		Jobs: []Job{{Pkg: "proc/redis", Scenarios: []string{"C18/scan"}, Shards: 16, QuickS: 90, ThoroughS: 300}},
+	},
+	{
 		ID: "C14", Title: "only supported commands reach backends; writes only reach masters", Level: "exploration",
 		LevelText: "exhaustive enumeration of the command-name space through the real proxy on a 2-master x 2-replica mini cluster: the full Redis 5.0 command table (with Redis's own write flags), every name in the proxy's tables and odd names, in three letter cases, with 0-4 arguments, under the three read strategies, with the virtual clock stepped so that the time-based replica choice visits every candidate; node logs compared before/after each command at quiescence",
 		Technique: "bounded-exhaustive enumeration of the command space on the real proxy stack under a controlled scheduler",
